@@ -90,4 +90,20 @@ PROPS = {
         'explanation': 'per-step policy theorems (entry_leaves_only_if over all five operation kinds, successor, full_bucket_newcomer, record_change, credit_rule); '
                        'the same clauses are evaluated on consecutive snapshots of the real table',
     },
+    'C10': {
+        'lean_targets': ['Shisui.Props.C10'],
+        'min_obligations': 5,
+        'goexperiment': 'synctest',
+        'runs': [{'name': 'lookup', 'harness': ['lookup'], 'driver': ['lookup']}],
+        'rule': 'the real lookup (newLookup.run) over a caller-supplied query function, inside a synctest bubble: every query blocks on a gate; '
+                'after each quiescence (synctest.Wait) the PRNG releases one outstanding query, cancels, or does both at once; universes of '
+                '0..64 peers (100..200 in thorough), 0..5 seed nodes or a full table, answers with duplicates, nil entries, the asker, the local '
+                'node, cycles, empty answers and failing peers; the set of newly started queries after every release and the final result must '
+                'equal the model; non-trivial = at least two queries were in flight when the event happened; distinct = distinct event lines',
+        'trusted': ['enode.DistCmp modelled as comparison of XOR distances (Nat)', 'Go select/goroutine scheduling controlled by testing/synctest'],
+        'assumptions': ['after a simultaneous release+cancel the order in which the lookup sees them is not controlled: only the monitors apply from there on'],
+        'explanation': 'theorems over all schedules and all answer functions (invariant, termination measure, result = closest 16 of seen); '
+                       'step equality on recorded schedules; monitors inflight_le_alpha, asked_once, never_ask_self, drained_at_return, terminates, '
+                       'result_sorted_distinct_le16, result_only_seen on the real run',
+    },
 }
